@@ -117,6 +117,7 @@ class C01Check(ExplainerCheck):
 class C02Check(ExplainerCheck):
     prop = "C02"
     focus = "pfi"
+    runs = {"quick": 2400, "thorough": 250000}
     oracle_classes = (C02Oracle,)
     design_ref = "DESIGN.md section 4, C02"
 
